@@ -154,6 +154,52 @@ CLAIMED.update({
     },
 })
 
+CLAIMED.update({
+    "C07": {
+        "text": "Both exports of every generated dataset/configuration are parsed into an abstract drawing and TLC evaluates, per back-end: one dot/link/"
+                "box per datum, dots and ticks on the exact affine image of the datum's own time (BigNat cross-multiplication on milliseconds, so a "
+                "lost time of day is visible), dots on the axis, link shape (starts at its dot, one curve per layer through the stub positions of the "
+                "root path, ends at the middle of the axis-facing edge of its own box), box size, verbatim text, tick text = the format the spec's "
+                "TimeFormat selects (calendar in TLA+).",
+        "note": "Control points of the curves and TeX rendering are not constrained; TikZ texts are compared for ASCII texts only (C19 covers conversion).",
+        "technique": "trace validation of parsed SVG/TikZ exports against TLA+ drawing predicates (TLC, exact arithmetic); TLA+ render model",
+        "design_ref": "DESIGN.md section 8 (C07)",
+    },
+    "C08": {
+        "text": "TLC proves on a lattice with negative and half-integer origins, for the four directions, that a C01-separated layout with label spacing "
+                ">= 3 and layer gap >= 1 gives disjoint boxes on the named side in layer order after integer truncation (spacing 2 gives a "
+                "counterexample), and evaluates Disjoint / Side / LayerOrder on the boxes parsed from both exports of generated datasets.",
+        "note": "Assume-guarantee with C01 at the design level; on the code side the boxes themselves are checked.",
+        "technique": "TLA+ render model checked by TLC; trace validation of parsed exports",
+        "design_ref": "DESIGN.md section 8 (C08)",
+    },
+    "C09": {
+        "text": "For deep-copied identical inputs the SVG and the TikZ document are parsed and TLC evaluates SameGeometry on the pair: axis, box "
+                "origins and sizes, link curves point for point as printed, dots, ticks (TikZ truncation within 1 unit) and tick texts, per-datum "
+                "colours (rgb() vs HTML hex) and texts; colour options as 3-/6-digit hex, list and function, border on/off.",
+        "note": "Main layer only (margins excluded, as the property says).",
+        "technique": "differential trace validation of the two emitters, verdict by TLC on the parsed pair",
+        "design_ref": "DESIGN.md section 8 (C09)",
+    },
+    "C10": {
+        "text": "Heap model of a process with module-level defaults and several Timeline instances (spec/Timelines.tla) model-checked over all "
+                "construct/export histories up to a bound (Isolation, Idempotent; sharing the default scale gives a 3-step counterexample); every "
+                "maximal TLC history is replayed in one Python process and each export's SHA-256 is compared by TLC with the digest of the same "
+                "configuration exported alone in a fresh subprocess; seeded random longer histories likewise.",
+        "note": "Equality up to SHA-256 collision.",
+        "technique": "TLA+ heap/history model + TLC; TLC-generated histories replayed into the code; trace validation against fresh-process references",
+        "design_ref": "DESIGN.md section 8 (C10)",
+    },
+    "C11": {
+        "text": "Pipeline model with a definedness guard per stage (spec/Pipeline.tla) model-checked over the descriptor space (no stuck stage; dropping "
+                "the degenerate-domain rule yields a stuck descriptor); every n-th descriptor is concretised and exported with both back-ends and TLC "
+                "checks Total and DegenerateAtStart on the outcomes; 150-label cluster inside the claim, 400-label cluster reported as known finding.",
+        "note": "Labels carry explicit widths (no LaTeX here).",
+        "technique": "TLA+ pipeline model checked by TLC; trace validation of export outcomes over the descriptor space",
+        "design_ref": "DESIGN.md section 8 (C11)",
+    },
+})
+
 NOT_YET = "check not built yet in this round; planned with the TLA+ specification described in DESIGN.md section 8"
 
 
